@@ -413,7 +413,6 @@ package mail
 //@   requires[C12:part-writer] mw.depth > 0 ==> mw.partWriter != nil
 //@   ensures[C12:inv] mwinv(mw) && mw.depth == old(mw.depth)
 //@   ensures[C12:sticky] sticky(mw)
-//@ at mail.msgWriter.writeBody mail.msgWriter.writeBody.writeFunc#1 after assert[C12:producer-failure-recorded] r1 != nil ==> true
 //@ func mail.msgWriter.writePart (part, charset)
 //@   requires[C12:inv] mwinv(mw) && part != nil && part.writeFunc != nil
 //@   ensures[C12:inv] mwinv(mw) && mw.depth == old(mw.depth)
@@ -527,6 +526,30 @@ package mail
 //@   loop 1 invariant[C12:failure-reported] failrep(mw)
 //@   loop 3 invariant[C12:failure-reported] failrep(mw)
 //@   loop 4 invariant[C12:failure-reported] failrep(mw)
+// a failing content producer is reported: mw.pfail (ghost) is set when a body / embed / attachment producer
+// returns an error - whatever error value - and from then on mw.err is non-nil
+//@ ghost field pfail bool
+//@ pred pfinv(mw *mail.msgWriter) = mw.pfail ==> mw.err != nil
+//@ at mail.msgWriter.writeBody mail.msgWriter.writeBody.writeFunc#1 after ghost[C03,C12:g] mw.pfail = (mw.pfail || r1 != nil)
+//@ at mail.msgWriter.writeBody mail.msgWriter.writeBody.writeFunc#2 after ghost[C03,C12:g] mw.pfail = (mw.pfail || r1 != nil)
+//@ func mail.msgWriter.writeBody (writeFunc, encoding)
+//@   requires[C12:producer-failure-reported] pfinv(mw)
+//@   ensures[C12:producer-failure-reported] pfinv(mw)
+//@ func mail.msgWriter.writePart (part, charset)
+//@   requires[C12:producer-failure-reported] pfinv(mw)
+//@   ensures[C12:producer-failure-reported] pfinv(mw)
+//@ func mail.msgWriter.addFiles (files, isAttachment)
+//@   requires[C12:producer-failure-reported] pfinv(mw)
+//@   ensures[C12:producer-failure-reported] pfinv(mw)
+//@   loop 1 invariant[C12:producer-failure-reported] pfinv(mw)
+//@   loop 2 invariant[C12:producer-failure-reported] pfinv(mw)
+//@   loop 3 invariant[C12:producer-failure-reported] pfinv(mw)
+//@ at mail.msgWriter.writeMsg entry ghost[C03,C12:g] mw.pfail = false
+//@ func mail.msgWriter.writeMsg (msg)
+//@   ensures[C12:producer-failure-reported] pfinv(mw)
+//@   loop 1 invariant[C12:producer-failure-reported] pfinv(mw)
+//@   loop 3 invariant[C12:producer-failure-reported] pfinv(mw)
+//@   loop 4 invariant[C12:producer-failure-reported] pfinv(mw)
 
 // ---------------------------------------------------------------------------
 // C06  Recipients are exactly To+Cc+Bcc, and Bcc stays hidden
